@@ -1,5 +1,6 @@
 import CwPlus.Driver.Common
 import CwPlus.Model.Cw4Group
+import CwPlus.Model.Cw4Raw
 /-!
 Scenario `cw4group`: op-line parser, observation renderer and property monitors
 (C09, C14 — cw4-group part) for the cw4-group model.
@@ -98,7 +99,11 @@ def obsOf (m : MState) : Args :=
      ("hs", joinC (m.heights.map toString)),
      -- raw dumps of the two snapshot changelogs (`MEMBERS.changelog()`, `TOTAL.changelog()`)
      ("mlog", renderMapLog s.members.log),
-     ("tlog", renderItemLog s.total.log)]
+     ("tlog", renderItemLog s.total.log),
+     -- the byte layout of the storage: `encode` of the model state, rendered as the harness renders the real
+     -- storage (`scen_cw4group::render_raw_keys`); probes = the first two pool addresses.  `resyncOf` does not
+     -- read this field (everything it shows is determined by the fields above).
+     ("rawkeys", RawStore.renderRawKeys (m.pool.take 2) (encode s))]
 
 /-! ## Re-synchronisation -/
 
